@@ -84,6 +84,8 @@ def check_response(rec, iface, size, data, exp, method, ctype_expected=None):
             v.append("416 without Content-Range: */size (%r)" % hdrs.get("content-range"))
         if any(b in body for b in [data[i:i + 4] for i in range(0, max(0, size - 4), 7)][:3]) and size >= 8:
             v.append("file data in an error response")
+        if head and body != b"":
+            v.append("HEAD with a body (%d bytes) on a %s response" % (len(body), status))
         return v
     if "content-length" not in hdrs:
         v.append("no content-length")
